@@ -1859,9 +1859,11 @@ def gen_c10(tier, seed):
                       T("X", "G1", dl, 0, [(r(1, 3, 2), CPU1)]),
                       T("Y", "G2", dl, 0, [(r(2, 4, 3), CPU1)]),
                       T("Z", "G3", dl, 0, [(r(1, 3, 2), CPU1)])], [], {}))
-        fams.append(("future", [{"CPU": 1}],
-                     [T("X", "G1", dl, now + 4, [(r(1, 3, 2), CPU1)], "virtual"),
-                      T("Y", "G2", dl, 0, [(r(2, 5, 3), CPU1)])], [], {"lookahead": 6}))
+        # a not-yet-released child whose intended release is known and later than its parent's end
+        fams.append(("future", [{"CPU": 2}],
+                     [T("A", "G1", dl, 0, [(r(1, 3, 2), CPU1)]),
+                      T("B", "G1", dl, now + 7, [(r(1, 3, 2), CPU1)], "virtual"),
+                      T("Y", "G2", dl, 0, [(r(2, 5, 3), CPU1)])], [("A", "B")], {"lookahead": 12}))
         fams.append(("chain", [{"CPU": 1}],
                      [T("A", "G1", dl, 0, [(r(1, 4, 3), CPU1)]),
                       T("B", "G1", dl, None, [(r(1, 3, 2), CPU1)], "virtual")], [("A", "B")],
